@@ -144,5 +144,257 @@ theorem fire_wire_fresh (G : Graph) (k p : Nat) : (G.fire k p).wire G.wires.size
   rw [Array.getElem?_push_size]
   rfl
 
+theorem get_push_false (s : Store Bool) (w : Nat) : Store.get (Array.push s false) w = Store.get s w := by
+  simp only [Store.get, Array.getD_eq_getD_getElem?]
+  by_cases h : w < s.size
+  · rw [Array.getElem?_push_lt h]; simp [h]
+  · by_cases h2 : w = s.size
+    · subst h2; rw [Array.getElem?_push_size]; simp
+    · rw [Array.getElem?_eq_none (by simp; omega), Array.getElem?_eq_none (by omega)]
+
+/-- The store after a firing: one more (fresh) wire, the orphaned wire reads 0. -/
+def fireStore (s : Store Bool) (ow : Nat) : Store Bool := Store.set (Array.push s false) ow false
+
+theorem fireStore_size (s : Store Bool) (ow : Nat) : (fireStore s ow).size = s.size + 1 := by
+  simp [fireStore]
+
+theorem fireStore_get (s : Store Bool) (ow w : Nat) (h : ow < s.size) :
+    Store.get (fireStore s ow) w = if w = ow then false else Store.get s w := by
+  unfold fireStore
+  by_cases hw : ow = w
+  · subst hw
+    rw [Store.get_set_eq _ _ _ (by simp; omega)]; simp
+  · rw [Store.get_set_ne _ _ _ _ hw, get_push_false]
+    have : ¬ w = ow := fun e => hw e.symm
+    simp [this]
+
+/-- Structural well-formedness used by `ShortCircuitXORZero`. -/
+structure SCBase (G : Graph) : Prop where
+  wf      : G.GWF
+  allLive : ∀ i, i < G.gates.size → (G.gate i).dead = false
+  ibound  : ∀ i, i < G.gates.size → (G.gate i).a < G.wires.size ∧
+              ((G.gate i).op ≠ .inv → (G.gate i).b < G.wires.size)
+  count   : ∀ w, G.readers w ≤ (G.wire w).numOut
+  unread  : ∀ w ∈ G.outputs, ∀ j, j < G.gates.size → ¬ reads (G.gate j) w
+
+theorem SCBase.live_iff {G : Graph} (h : SCBase G) (i : Nat) : G.live i ↔ i < G.gates.size :=
+  ⟨fun hh => hh.1, fun hh => ⟨hh, h.allLive i hh⟩⟩
+
+/-- Facts about a firing position. -/
+structure FirePre (G : Graph) (k p z ow : Nat) : Prop where
+  hk    : k < G.gates.size
+  hp    : p < G.gates.size
+  xor   : (G.gate k).op = .xor
+  role  : ((G.gate k).a = z ∧ (G.gate k).b = ow) ∨ ((G.gate k).b = z ∧ (G.gate k).a = ow)
+  prod  : (G.gate p).o = ow
+  one   : (G.wire ow).numOut = 1
+  zval  : ∀ x, (G.evalStore x).get z = false
+
+section Fire
+variable {G : Graph} {k p z ow : Nat}
+
+theorem FirePre.reads_k (f : FirePre G k p z ow) : reads (G.gate k) ow := by
+  rcases f.role with ⟨_, h⟩ | ⟨_, h⟩
+  · exact Or.inr ⟨by rw [f.xor]; simp, h⟩
+  · exact Or.inl h
+
+theorem FirePre.only_k (h : SCBase G) (f : FirePre G k p z ow) (j : Nat) (hj : j < G.gates.size)
+    (hjk : j ≠ k) : ¬ reads (G.gate j) ow := by
+  intro hr
+  have h1 := slots_pos_of_reads _ _ hr
+  have h2 := slots_pos_of_reads _ _ f.reads_k
+  have := readers_two G ow j k hjk ((h.live_iff j).mpr hj) ((h.live_iff k).mpr f.hk)
+  have := h.count ow
+  rw [f.one] at this
+  omega
+
+theorem FirePre.z_ne (h : SCBase G) (f : FirePre G k p z ow) : z ≠ ow := by
+  intro e
+  have : 2 ≤ slots ow (G.gate k) := by
+    unfold slots
+    rcases f.role with ⟨h1, h2⟩ | ⟨h1, h2⟩ <;> simp [h1, h2, e, f.xor]
+  have h3 := readers_ge G ow k ((h.live_iff k).mpr f.hk)
+  have := h.count ow
+  rw [f.one] at this
+  omega
+
+theorem FirePre.p_lt (h : SCBase G) (f : FirePre G k p z ow) : p < k := by
+  by_cases hle : k ≤ p
+  · have := h.wf.topo k p hle ((h.live_iff k).mpr f.hk) ((h.live_iff p).mpr f.hp)
+    rw [f.prod] at this
+    rcases f.role with ⟨_, h2⟩ | ⟨_, h2⟩
+    · exact absurd h2.symm (this.2 (by rw [f.xor]; simp))
+    · exact absurd h2.symm this.1
+  · omega
+
+/-- the new gate array, field by field -/
+theorem fire_fields (h : SCBase G) (f : FirePre G k p z ow) (j : Nat) :
+    ((G.fire k p).gate j).op = (G.gate j).op ∧ ((G.fire k p).gate j).a = (G.gate j).a ∧
+    ((G.fire k p).gate j).b = (G.gate j).b ∧ ((G.fire k p).gate j).dead = (G.gate j).dead ∧
+    ((G.fire k p).gate j).o =
+      (if j = k then G.wires.size else if j = p then (G.gate k).o else (G.gate j).o) := by
+  have hpk : p ≠ k := by have := f.p_lt h; omega
+  rw [gate_fire G k p j f.hk f.hp hpk]
+  by_cases hjk : j = k
+  · subst hjk; simp
+  · by_cases hjp : j = p
+    · subst hjp; simp [hjk]
+    · simp [hjk, hjp]
+
+theorem fire_live (h : SCBase G) (f : FirePre G k p z ow) (j : Nat) :
+    (G.fire k p).live j ↔ j < G.gates.size := by
+  unfold live
+  rw [fire_gsize, (fire_fields h f j).2.2.2.1]
+  exact ⟨fun hh => hh.1, fun hh => ⟨hh, h.allLive j hh⟩⟩
+
+theorem fire_gwf (h : SCBase G) (f : FirePre G k p z ow) : (G.fire k p).GWF := by
+  have hpk := f.p_lt h
+  have hobk := h.wf.obound k ((h.live_iff k).mpr f.hk)
+  refine ⟨by rw [fire_wsize]; have := h.wf.nin; exact Nat.le_succ_of_le this, fun j hj => ?_,
+    fun i j hi hj ho => ?_, fun i j hij hi hj => ?_⟩
+  · rw [fire_live h f] at hj
+    rw [(fire_fields h f j).2.2.2.2, fire_wsize]
+    have hnin : (G.fire k p).nIn = G.nIn := rfl
+    rw [hnin]
+    split
+    · exact ⟨h.wf.nin, Nat.lt_succ_self _⟩
+    · split
+      · exact ⟨hobk.1, Nat.lt_succ_of_lt hobk.2⟩
+      · have := h.wf.obound j ((h.live_iff j).mpr hj)
+        exact ⟨this.1, Nat.lt_succ_of_lt this.2⟩
+  · rw [fire_live h f] at hi hj
+    rw [(fire_fields h f i).2.2.2.2, (fire_fields h f j).2.2.2.2] at ho
+    have hbi := (h.wf.obound i ((h.live_iff i).mpr hi)).2
+    have hbj := (h.wf.obound j ((h.live_iff j).mpr hj)).2
+    have hd := fun a b ha hb e => h.wf.odist a b ((h.live_iff a).mpr ha) ((h.live_iff b).mpr hb) e
+    have hpk' : ¬ p = k := by omega
+    by_cases hik : i = k
+    · by_cases hjk : j = k
+      · omega
+      · rw [if_pos hik, if_neg hjk] at ho
+        split at ho <;> omega
+    · by_cases hjk : j = k
+      · rw [if_neg hik, if_pos hjk] at ho
+        split at ho <;> omega
+      · rw [if_neg hik, if_neg hjk] at ho
+        by_cases hip : i = p
+        · by_cases hjp : j = p
+          · omega
+          · rw [if_pos hip, if_neg hjp] at ho
+            have := hd k j f.hk hj ho; omega
+        · by_cases hjp : j = p
+          · rw [if_neg hip, if_pos hjp] at ho
+            have := hd i k hi f.hk ho; omega
+          · rw [if_neg hip, if_neg hjp] at ho
+            exact hd i j hi hj ho
+  · rw [fire_live h f] at hi hj
+    obtain ⟨hop, ha, hb, _, _⟩ := fire_fields h f i
+    rw [hop, ha, hb, (fire_fields h f j).2.2.2.2]
+    have hib := h.ibound i hi
+    split
+    · exact ⟨by omega, fun hh => by have := hib.2 hh; omega⟩
+    · split
+      · rename_i hjp
+        subst hjp
+        exact h.wf.topo i k (by omega) ((h.live_iff i).mpr hi) ((h.live_iff k).mpr f.hk)
+      · exact h.wf.topo i j hij ((h.live_iff i).mpr hi) ((h.live_iff j).mpr hj)
+
+/-- The solution of the graph after the firing. -/
+theorem fire_gsol (h : SCBase G) (f : FirePre G k p z ow) (x : List Bool) :
+    (G.fire k p).GSol x (fireStore (G.evalStore x) ow) := by
+  have hs := evalStore_gsol h.wf x
+  have hpk := f.p_lt h
+  have hobp := h.wf.obound p ((h.live_iff p).mpr f.hp)
+  rw [f.prod] at hobp
+  have hzow := f.z_ne h
+  -- value of the new store
+  have hget : ∀ w, (fireStore (G.evalStore x) ow).get w =
+      if w = ow then false else (G.evalStore x).get w :=
+    fun w => fireStore_get _ _ _ (by rw [hs.size]; exact hobp.2)
+  -- old gate equation of k: its output carries the bit of `ow`
+  have hk_eq : (G.evalStore x).get (G.gate k).o = (G.evalStore x).get ow := by
+    have := hs.sem k ((h.live_iff k).mpr f.hk)
+    simp only [gateEq, f.xor, Op.eval] at this
+    rw [this]
+    rcases f.role with ⟨h1, h2⟩ | ⟨h1, h2⟩
+    · rw [h1, h2, f.zval x]; cases (G.evalStore x).get ow <;> rfl
+    · rw [h1, h2, f.zval x]; cases (G.evalStore x).get ow <;> rfl
+  refine ⟨by rw [fireStore_size, fire_wsize, hs.size], fun w hw => ?_, fun j hj => ?_, fun w hw hno => ?_⟩
+  · have hnin : (G.fire k p).nIn = G.nIn := rfl
+    rw [hnin] at hw ⊢
+    rw [hget, if_neg (by omega)]
+    exact hs.inp w hw
+  · rw [fire_live h f] at hj
+    obtain ⟨hop, ha, hb, _, ho⟩ := fire_fields h f j
+    have hsem := hs.sem j ((h.live_iff j).mpr hj)
+    simp only [gateEq] at hsem ⊢
+    rw [hop, ha, hb, ho]
+    by_cases hjk : j = k
+    · -- gate k: XOR of two zero bits on the fresh wire
+      subst hjk
+      simp only [if_true, f.xor, Op.eval]
+      rw [hget, hget, hget]
+      have hsz : ¬ G.wires.size = ow := by omega
+      rcases f.role with ⟨h1, h2⟩ | ⟨h1, h2⟩
+      · rw [h1, h2]
+        simp only [hsz, if_false, if_true, if_neg hzow, f.zval x]
+        simp [Store.get, Array.getD, hs.size]
+      · rw [h1, h2]
+        simp only [hsz, if_false, if_true, if_neg hzow, f.zval x]
+        simp [Store.get, Array.getD, hs.size]
+    · rw [if_neg hjk]
+      have hnr := f.only_k h j hj hjk
+      have hna : (G.gate j).a ≠ ow := fun e => hnr (Or.inl e)
+      rw [hget (G.gate j).a, if_neg hna]
+      -- the second input
+      have hbv : (G.gate j).op.eval ((G.evalStore x).get (G.gate j).a)
+            ((fireStore (G.evalStore x) ow).get (G.gate j).b) =
+          (G.gate j).op.eval ((G.evalStore x).get (G.gate j).a) ((G.evalStore x).get (G.gate j).b) := by
+        by_cases hopi : (G.gate j).op = .inv
+        · exact Op.eval_unary _ (by rw [hopi]; rfl) _ _ _
+        · have hnb : (G.gate j).b ≠ ow := fun e => hnr (Or.inr ⟨hopi, e⟩)
+          rw [hget (G.gate j).b, if_neg hnb]
+      rw [hbv, ← hsem]
+      by_cases hjp : j = p
+      · subst hjp
+        rw [if_pos rfl, hget, if_neg (by
+          intro e
+          -- k's old output is not `ow` (that is p's output, p ≠ k)
+          have := h.wf.odist k j ((h.live_iff k).mpr f.hk) ((h.live_iff j).mpr hj) (by rw [e, f.prod])
+          omega), hk_eq, f.prod]
+      · rw [if_neg hjp, hget, if_neg (by
+          intro e
+          have := h.wf.odist j p ((h.live_iff j).mpr hj) ((h.live_iff p).mpr f.hp) (by rw [e, f.prod])
+          exact hjp this)]
+  · have hnin : (G.fire k p).nIn = G.nIn := rfl
+    rw [hnin] at hw
+    rw [hget]
+    split
+    · rfl
+    · rename_i hwow
+      -- nothing in the new graph writes w; then nothing in the old graph did
+      by_cases hwf : w = G.wires.size
+      · exfalso
+        have := hno k ((fire_live h f k).mpr f.hk)
+        rw [(fire_fields h f k).2.2.2.2, if_pos rfl] at this
+        exact this hwf.symm
+      · refine hs.undef w hw (fun j hj => ?_)
+        have hj' := (h.live_iff j).mp hj
+        have := hno j ((fire_live h f j).mpr hj')
+        rw [(fire_fields h f j).2.2.2.2] at this
+        by_cases hjk : j = k
+        · subst hjk
+          -- old output of k is now written by p
+          have hp' := hno p ((fire_live h f p).mpr f.hp)
+          rw [(fire_fields h f p).2.2.2.2, if_neg (by omega), if_pos rfl] at hp'
+          exact hp'
+        · rw [if_neg hjk] at this
+          by_cases hjp : j = p
+          · subst hjp
+            rw [f.prod]; exact fun e => hwow e.symm
+          · rw [if_neg hjp] at this; exact this
+
+end Fire
+
 end Graph
 end Mpc
